@@ -34,12 +34,17 @@ pub(crate) struct PubSocketBackend {
 }
 
 impl PubSocketBackend {
-    /// Forgets connection `conn` of a peer, not a newer connection registered under its identity
-    fn forget_conn(&self, peer_id: &PeerIdentity, conn: u64) {
+    /// Forgets connection `conn` of a peer, not a newer connection registered under its identity.
+    ///
+    /// The table is awaited, here and in `message_received`: both run in the reader tasks, and
+    /// a blocking wait there can stop a worker thread that has the very task queued on it that
+    /// holds the lock (a `send` walking the table).
+    async fn forget_conn(&self, peer_id: &PeerIdentity, conn: u64) {
         log::info!("Client disconnected {:?}", peer_id);
         let forgotten = self
             .subscribers
-            .remove_if_sync(peer_id, |subscriber| subscriber.conn == conn)
+            .remove_if_async(peer_id, |subscriber| subscriber.conn == conn)
+            .await
             .is_some();
         if forgotten {
             if let Some(monitor) = self.monitor().lock().as_mut() {
@@ -48,7 +53,7 @@ impl PubSocketBackend {
         }
     }
 
-    fn message_received(&self, peer_id: &PeerIdentity, conn: u64, message: Message) {
+    async fn message_received(&self, peer_id: &PeerIdentity, conn: u64, message: Message) {
         let data = match message {
             Message::Message(m) => {
                 if m.len() != 1 {
@@ -67,7 +72,7 @@ impl PubSocketBackend {
         match data.first() {
             Some(1) => {
                 // Subscribe
-                if let Some(mut entry) = self.subscribers.get_sync(peer_id) {
+                if let Some(mut entry) = self.subscribers.get_async(peer_id).await {
                     if entry.conn == conn {
                         entry.subscriptions.push(Vec::from(&data[1..]));
                     }
@@ -76,7 +81,7 @@ impl PubSocketBackend {
             Some(0) => {
                 // Unsubscribe
                 let sub = Vec::from(&data[1..]);
-                if let Some(mut entry) = self.subscribers.get_sync(peer_id) {
+                if let Some(mut entry) = self.subscribers.get_async(peer_id).await {
                     if entry.conn == conn {
                         if let Some(index) = entry.subscriptions.iter().position(|s| s == &sub) {
                             entry.subscriptions.remove(index);
@@ -147,14 +152,14 @@ impl MultiPeerBackend for PubSocketBackend {
                             None => break,
                         };
                         match message {
-                            Some(Ok(m)) => backend.message_received(&peer_id, conn, m),
+                            Some(Ok(m)) => backend.message_received(&peer_id, conn, m).await,
                             Some(Err(e)) => {
                                 log::debug!("Error receiving message: {:?}", e);
-                                backend.forget_conn(&peer_id, conn);
+                                backend.forget_conn(&peer_id, conn).await;
                                 break;
                             }
                             None => {
-                                backend.forget_conn(&peer_id, conn);
+                                backend.forget_conn(&peer_id, conn).await;
                                 break
                             }
                         }
@@ -189,8 +194,15 @@ impl Drop for PubSocket {
 impl SocketSend for PubSocket {
     async fn send(&mut self, message: ZmqMessage) -> ZmqResult<()> {
         let mut dead_peers = Vec::new();
+        // The walk is not a snapshot: when the table shrinks under it (subscribers leaving on
+        // other threads) it resumes at an earlier bucket and meets entries again.
+        let mut served = std::collections::HashSet::new();
         let mut iter = self.backend.subscribers.begin_async().await;
         while let Some(mut subscriber) = iter {
+            if !served.insert(subscriber.conn) {
+                iter = subscriber.next_async().await;
+                continue;
+            }
             for sub_filter in &subscriber.subscriptions {
                 if sub_filter.len() <= message.get(0).unwrap().len()
                     && sub_filter.as_slice() == &message.get(0).unwrap()[0..sub_filter.len()]
@@ -225,7 +237,7 @@ impl SocketSend for PubSocket {
             iter = subscriber.next_async().await;
         }
         for (peer, conn) in dead_peers {
-            self.backend.forget_conn(&peer, conn);
+            self.backend.forget_conn(&peer, conn).await;
         }
         Ok(())
     }
